@@ -159,7 +159,10 @@ class DefaultFormulaParser(FormulaParser):
                         context.pop()
                 if context:
                     continue
-                if token.token == "~":  # noqa: S105
+                # The tilde may still be merged with adjacent operator
+                # characters (e.g. "~+" or "~-") when intercepts are not being
+                # inserted; and a quoted name "`~`" is not an operator.
+                if token.kind is Token.Kind.OPERATOR and "~" in token.token:
                     return index
             return -1
 
